@@ -1304,6 +1304,8 @@ class Interp:
             return "?"
         lo, hi = c(sl.lower), c(sl.upper)
         if "?" not in (lo, hi):
+            if isinstance(v, Alt) and all(isinstance(a, Const) and isinstance(a.v, str) for a in v.alts):
+                return join(Const(a.v[lo:hi]) for a in v.alts)
             if isinstance(v, Const) and isinstance(v.v, str):
                 return Const(v.v[lo:hi])
             if isinstance(v, ListV) and not v.open:
@@ -1328,6 +1330,11 @@ class Interp:
             except IndexError:
                 s.status, s.node, s.exc, s.value = "raise", node, "IndexError", Const("IndexError")
                 return Top(), s
+        if isinstance(v, Alt) and all(isinstance(a, Const) and isinstance(a.v, (str, tuple)) for a in v.alts) and isinstance(i, Const) and isinstance(i.v, int):
+            try:
+                return join(Const(a.v[i.v]) for a in v.alts), s
+            except IndexError:
+                pass
         if isinstance(v, Sym):
             k = repr(i.v) if isinstance(i, Const) else self.vkey(i)
             return Sym(f"{v.path}[{k}]"), s
@@ -1458,16 +1465,27 @@ class Interp:
                     return Const(lv.v + rv.v)
                 except TypeError:
                     return Top("add")
-            if isinstance(lv, (StrT, Const)) and isinstance(rv, (StrT, Const, Sym, App, Rep)) and (
-                isinstance(lv, StrT) or isinstance(lv.v, str)
-            ):
-                if isinstance(rv, Const) and not isinstance(rv.v, str):
-                    return Top("add")
-                return mkstr([*(lv.parts if isinstance(lv, StrT) else [lv.v]),
-                              *(rv.parts if isinstance(rv, StrT) else [rv.v if isinstance(rv, Const) else rv])])
-            if isinstance(rv, (StrT,)) or (isinstance(rv, Const) and isinstance(rv.v, str)):
-                if isinstance(lv, (Sym, App)):
-                    return mkstr([lv, *(rv.parts if isinstance(rv, StrT) else [rv.v])])
+
+            def stringish(v: AV) -> bool | None:
+                """True: certainly a str; None: could be; False: certainly not."""
+                if isinstance(v, Const):
+                    return isinstance(v.v, str)
+                if isinstance(v, (StrT, Rep)):
+                    return True
+                if isinstance(v, Alt):
+                    rs = [stringish(a) for a in v.alts]
+                    if all(r is True for r in rs):
+                        return True
+                    if any(r is False for r in rs):
+                        return False
+                    return None
+                if isinstance(v, (Sym, App)):
+                    return None
+                return False
+
+            sl, sr = stringish(lv), stringish(rv)
+            if (sl is True and sr is not False) or (sr is True and sl is not False):
+                return mkstr([lv, rv])
             if isinstance(lv, ListV) and isinstance(rv, ListV) and lv.kind == rv.kind:
                 if not lv.open and not rv.open:
                     return ListV(lv.items + rv.items, False, lv.kind)
